@@ -1027,6 +1027,15 @@ func prepareImages(r *ev.Run, cfg imgConfig, regimes []flushRegime, st *imgStats
 		r.Broken("part 2: %s: recorded run ends at another tip than the part-1 baseline", cfg)
 	}
 	lap("record")
+	if os.Getenv("C04_IMG_DUMPLOG") == cfg.String() { // development aid: the recorded logs of one configuration
+		for _, rc := range recs {
+			var evs []string
+			for _, e := range rc.log {
+				evs = append(evs, e.String())
+			}
+			fmt.Fprintf(os.Stderr, "LOG %s %s: %s\n", cfg, rc.regime, strings.Join(evs, " "))
+		}
+	}
 	st.Commits = recs[0].commits
 	st.LogEvents = map[string]int{}
 	// enumerate
@@ -1211,16 +1220,16 @@ func phaseImages(r *ev.Run, wls []*workload, long bool) bool {
 		r.Cap("part 2: time box hit; see crash_images for the configurations that were completed")
 	}
 	r.Set("crash_images", map[string]interface{}{
-		"flush_regimes":            names,
-		"subset_cap_bits":          map[string]int{"every_and_periodic": capFor(flushRegime{Period: 1}, long), "never": capFor(flushRegime{}, long)},
-		"subset_bound":             "per log prefix: every subset of the newest subset_cap_bits unsynced writes lost (older unsynced writes kept), plus the image with ALL unsynced writes lost; each additionally with the last write torn",
+		"flush_regimes":                        names,
+		"subset_cap_bits":                      map[string]int{"every_and_periodic": capFor(flushRegime{Period: 1}, long), "never": capFor(flushRegime{}, long)},
+		"subset_bound":                         "per log prefix: every subset of the newest subset_cap_bits unsynced writes lost (older unsynced writes kept), plus the image with ALL unsynced writes lost; each additionally with the last write torn",
 		"prefixes_where_the_bound_cut_subsets": capped,
-		"leveldb_states":           "observed (verified copies of the live directory), not inferred",
-		"torn_variants":            "last write cut at half length",
-		"distinct_images_opened":   total,
-		"per_configuration":        stats,
-		"crash_during_recovery":    "enumerated at commit granularity only (part 1)",
-		"recovery_cache_dimension": map[bool]string{false: "same cache size as before the crash", true: "same cache size as before the crash; configurations with the 1 MiB cache additionally restarted with cache size 0"}[long],
+		"leveldb_states":                       "observed (verified copies of the live directory), not inferred",
+		"torn_variants":                        "last write cut at half length",
+		"distinct_images_opened":               total,
+		"per_configuration":                    stats,
+		"crash_during_recovery":                "enumerated at commit granularity only (part 1)",
+		"recovery_cache_dimension":             map[bool]string{false: "same cache size as before the crash", true: "same cache size as before the crash; configurations with the 1 MiB cache additionally restarted with cache size 0"}[long],
 	})
 	return complete
 }
@@ -1246,7 +1255,11 @@ func reportImage(r *ev.Run, ic *imgCtx, rc *recording, cc imgCase, class, what s
 	}
 	key := imgKey(ic.cfg.wl, class, rc, cc)
 	if os.Getenv("C04_IMG_VERBOSE") != "" { // development aid: every failing image, not only one per key
-		fmt.Fprintf(os.Stderr, "FAIL %s cfg=%s regime=%s prefix=%d dropped=%v torn=%v: %s\n", key, ic.cfg, cc.Regime, cc.Prefix, cc.Dropped, cc.Torn, what)
+		var last []string
+		for _, e := range rc.log[max(0, cc.Prefix-10):cc.Prefix] {
+			last = append(last, e.String())
+		}
+		fmt.Fprintf(os.Stderr, "FAIL %s cfg=%s regime=%s prefix=%d [.. %s] dropped=%v torn=%v: %s\n", key, ic.cfg, cc.Regime, cc.Prefix, strings.Join(last, " "), cc.Dropped, cc.Torn, what)
 	}
 	from := cc.Prefix - 12
 	if from < 0 {
